@@ -188,6 +188,15 @@ func (p *rvProgram) imageByte(a uint64) (byte, bool) {
 // buildRVCode parses the program with the real front end and builds the code
 // model (in-memory path: front end + constant folding as internal/parser does).
 func buildRVCode(p *rvProgram) (*deps.Code, error) {
+	seq, err := buildRVSeq(p)
+	if err != nil {
+		return nil, err
+	}
+	return deps.NewCode(model.Addr(p.entry), seq)
+}
+
+// buildRVSeq lifts the words of p with the real front end.
+func buildRVSeq(p *rvProgram) ([]parser.Instruction, error) {
 	prs, _ := rvParser(rv64ima)
 	code := p.codeBytes()
 	var seq []parser.Instruction
@@ -205,7 +214,7 @@ func buildRVCode(p *rvProgram) (*deps.Code, error) {
 			Details: ins.Details,
 		})
 	}
-	return deps.NewCode(model.Addr(p.entry), seq)
+	return seq, nil
 }
 
 // rvHarness runs the emulator and the reference machine in lock step.
